@@ -449,10 +449,46 @@ func (r *c16Run) dfs(ctx sdk.Context, ref *c16Ref, depth, maxDepth int, path []s
 		r.st.Incomplete = true
 		return
 	}
+	// ISOLATION (see c14.go): the parent state must read the same through the keeper before and after every
+	// DISCARDED child branch
+	fpOf := func() string {
+		k := r.w.App.OracleKeeper
+		fs := []string{}
+		for _, f := range k.GetAllPriceFeeder(ctx) {
+			fs = append(fs, fmt.Sprintf("%s=%v", f.Feeder, f.IsActive))
+		}
+		sort.Strings(fs)
+		ai := []string{}
+		for _, a := range k.GetAllAssetInfo(ctx) {
+			ai = append(ai, a.Denom+">"+a.Display)
+		}
+		sort.Strings(ai)
+		p := k.GetParams(ctx)
+		return fmt.Sprintf("prices[%s] feeders[%s] infos[%s] expiry=%d life=%d", priceDump(r.w, ctx), strings.Join(fs, ","), strings.Join(ai, ","), p.PriceExpiryTime, p.LifeTimeInBlocks)
+	}
+	fp0 := fpOf()
+	last := -1
+	iso := func() {
+		if last < 0 || r.st.Polluted {
+			return
+		}
+		r.st.Clauses["discarded_branch_isolation"]++
+		if fp := fpOf(); fp != fp0 {
+			r.find(Finding{Clause: "discarded_branch_changed_what_the_parent_sees", Culprit: r.ops[last].Kind, Disc: "", Detail: fmt.Sprintf("after exploring and DISCARDING the branch of op %s the oracle keeper answers differently on the untouched parent state:\nbefore: %s\nafter:  %s", r.ops[last].Name, fp0, fp)}, append(append([]string{}, path...), "discard:"+r.ops[last].Name))
+			r.st.Polluted = true
+			r.st.Incomplete = true
+		}
+	}
+	defer iso()
 	for oi, op := range r.ops {
 		if depth == 0 && first >= 0 && oi != first {
 			continue
 		}
+		iso()
+		if r.st.Polluted {
+			return
+		}
+		last = oi
 		np := append(path, op.Name)
 		c, _ := ctx.CacheContext()
 		nr := ref.clone()
@@ -497,6 +533,8 @@ func c16RunUnit(w *World, u c16Unit, deadline time.Time, fixed []string) *KStats
 	if fixed != nil {
 		ctx := base
 		for d, name := range fixed {
+			discard := strings.HasPrefix(name, "discard:")
+			name = strings.TrimPrefix(name, "discard:")
 			var op *c16Op
 			for i := range r.ops {
 				if r.ops[i].Name == name {
@@ -505,6 +543,17 @@ func c16RunUnit(w *World, u c16Unit, deadline time.Time, fixed []string) *KStats
 			}
 			if op == nil {
 				return &KStats{HarnessErr: "unknown op " + name}
+			}
+			if discard {
+				before := priceDump(r.w, ctx) + fmt.Sprint(r.w.App.OracleKeeper.GetAllPriceFeeder(ctx), r.w.App.OracleKeeper.GetParams(ctx))
+				dc, _ := ctx.CacheContext()
+				keep := r.st.Findings
+				r.apply(dc, ref.clone(), *op, d, fixed[:d+1])
+				r.st.Findings = keep
+				if after := priceDump(r.w, ctx) + fmt.Sprint(r.w.App.OracleKeeper.GetAllPriceFeeder(ctx), r.w.App.OracleKeeper.GetParams(ctx)); after != before {
+					r.find(Finding{Clause: "discarded_branch_changed_what_the_parent_sees", Culprit: op.Kind, Disc: "", Detail: "before: " + before + "\nafter:  " + after}, fixed[:d+1])
+				}
+				continue
 			}
 			c, _ := ctx.CacheContext()
 			r.st.Evaluations++
@@ -530,7 +579,12 @@ func c16Worker(tier string) KUnitFunc {
 		if err := json.Unmarshal(raw, &u); err != nil {
 			return &KStats{HarnessErr: err.Error()}
 		}
-		return c16RunUnit(w, u, deadline, nil)
+		st := c16RunUnit(w, u, deadline, nil)
+		if st.Polluted {
+			w.Close()
+			w = NewWorld(FixtureCfg{})
+		}
+		return st
 	}
 }
 
